@@ -648,6 +648,58 @@ def validate_trace(spec_dir, module, cfg, trace_path, timeout=900, xmx="4g", env
 # ---------------------------------------------------------------------------------------------
 # executions under the cooperative scheduler (harness/sched): one process per execution
 
+def preemption_bounded_schedules(binary, base_args, bound=2, cap=3000, timeout=30):
+    """Systematic schedule exploration for a small scenario under the cooperative scheduler (harness/sched): all
+    schedules with at most `bound` preemptions (a switch away from a thread that could have continued; switches at
+    points where the running thread blocks or ends are free), breadth first by number of preemptions, at most `cap`
+    schedules.  Uses the scheduler's non-preemptive mode (--np), which continues a given schedule prefix without
+    preemption and reports the threads eligible at every step.  Returns a list of argument lists (base_args + the
+    schedule) to be executed and judged like any other run."""
+    env = dict(os.environ, ASAN_OPTIONS="detect_leaks=0:abort_on_error=0:exitcode=99:allocator_may_return_null=1")
+
+    def probe(prefix):
+        try:
+            p = subprocess.run([binary] + [str(a) for a in base_args] + ["--np", "--sched", " ".join(prefix), "--out", "/dev/null"],
+                               stdout=subprocess.PIPE, stderr=subprocess.DEVNULL, timeout=timeout, env=env)
+            for line in p.stdout.decode("utf-8", "replace").splitlines():
+                if line.startswith('{"verdict"'):
+                    d = json.loads(line)
+                    return d.get("choices", "").split(), d.get("elig", "").split(" ")
+        except (subprocess.TimeoutExpired, ValueError):
+            pass
+        return None, None
+    seen, out = set(), []
+    level = [((), 0)]
+    while level and len(out) < cap:
+        with ThreadPoolExecutor(max_workers=max(2, NCPU - 2)) as ex:
+            probed = list(ex.map(lambda x: probe(list(x[0])), level))
+        nxt = []
+        for (prefix, used), (choices, elig) in zip(level, probed):
+            if choices is None:
+                continue
+            key = tuple(choices)
+            if key in seen:
+                continue
+            seen.add(key)
+            out.append(list(base_args) + ["--np", "--sched", " ".join(prefix)])
+            if len(out) >= cap:
+                break
+            for i in range(len(prefix), min(len(choices), len(elig))):
+                alts = [a for a in elig[i].split(".") if a]
+                if len(alts) < 2:
+                    continue
+                prev = choices[i - 1] if i > 0 else None
+                cost = 1 if (prev is not None and choices[i] == prev and prev in alts) else 0
+                if used + cost > bound:
+                    continue
+                for a in alts:
+                    if a != choices[i]:
+                        nxt.append((tuple(choices[:i]) + (a,), used + cost))
+        nxt.sort(key=lambda x: x[1])
+        level = nxt[:max(0, cap * 2)]
+    return out
+
+
 def run_sched_executions(binary, runs, work, tag, timeout=60, parallel=None):
     """runs: list of argument lists (scenario parameters, --seed, --sched ...).  Every execution runs in its own
     process and writes its own trace; the traces are concatenated (each starts with a reset event).
